@@ -151,6 +151,13 @@ def run(m, rep, tier):
     _ae = rep.rule('W12', 'every store / effectful call made with assertions enabled is also made by the NDEBUG build (no work inside assert())', floor=1)
     check_assert_effects(m, _ae, ('bintree.c', 'rbtree.c', 'heap.c', 'bintree.h', 'rbtree.h', 'heap.h'))
 
+    # ---- W13 / W14: no state outside the frame; const parameters stay untouched ---------------------------
+    from .util import check_no_mutable_globals, check_const_params
+    w13 = rep.rule('W13', 'bintree.c / rbtree.c / heap.c define no writable static object', floor=3)
+    check_no_mutable_globals(m, w13, ('bintree', 'rbtree', 'heap'))
+    w14 = rep.rule('W14', 'a pointer-to-const parameter (the probe of find / erase) is never written through', floor=2)
+    check_const_params(m, w14, ('bintree.h', 'rbtree.h', 'heap.h'))
+
 
 def check_rb_insert_root_black(m, rule, enums):
     black = enums.get('CSTL_RBTREE_COLOR_B')
